@@ -101,7 +101,9 @@ def decision(spec):
         r.prrr.value = rng.getrandbits(32)
         r.nmrr.value = rng.getrandbits(32)
         r.ttbcr.value = n | ((1 if rng.random() < 0.1 else 0) << 4) | ((1 if rng.random() < 0.1 else 0) << 5)
-        r.ttbr0 = r.ttbr0_64 = T0 | rng.getrandbits(3)
+        # the TTBR0 table is only (14-N)-bit aligned: place it anywhere in its 16KB window
+        t0base = T0 + (rng.randrange(1 << n) * (1 << (14 - n)) if n else 0)
+        r.ttbr0 = r.ttbr0_64 = t0base | rng.getrandbits(3)
         r.ttbr1 = r.ttbr1_64 = T1 | rng.getrandbits(3)
         r.dacr.value = sum(rng.choice([0, 1, 1, 3]) << (2 * d) for d in range(16))
         r.fcseidr.value = (rng.choice([0, 0, 0, 1, 0x40]) << 25)
@@ -118,7 +120,7 @@ def decision(spec):
             use0 = (n == 0) or (mva >> (32 - n)) == 0
             if use0:
                 idx = (mva >> 20) & ((1 << (12 - n)) - 1)
-                l1a = (T0 & ~((1 << (14 - n)) - 1)) + 4 * idx
+                l1a = t0base + 4 * idx
             else:
                 l1a = T1 + 4 * ((mva >> 20) & 0xFFF)
             if not (0 <= l1a < 0x20000 - 4):
